@@ -23,7 +23,7 @@ FORMATS = ("ebyte", "usb", "yd")
 
 def shards(tier, seed):
     out = []
-    reps = 2 if tier == "quick" else 12
+    reps = 2 if tier == "quick" else 100
     for fmt in FORMATS:
         for rot in range(8):
             out.append({"name": f"stub-{fmt}-rot{rot}", "kind": "stub", "fmt": fmt, "rot": rot, "reps": reps, "seed": seed})
@@ -183,7 +183,7 @@ def run_public(spec, acc):
     rng = gen.rng_for(spec["seed"], ID, spec["name"])
     defs = [d for d in dbx.defs if d.encodable and d.type == "Fast"]
     defs = [d for k, d in enumerate(defs) if k % spec["n"] == spec["i"]]
-    n_payloads = 15 if spec["tier"] == "quick" else 120
+    n_payloads = 15 if spec["tier"] == "quick" else 1000
     src_dec = NMEA2000Decoder()
     for d in defs:
         nb = d.length if d.length is not None else (d.total_bits() + 7) // 8
@@ -308,7 +308,7 @@ def run_multistream(spec, acc):
         for gap in (7, 15, 6, 8, 1):
             patterns.append(["A"] + ["B"] * gap + ["A"] + ["C"] * gap + ["A", "B"])
         patterns.append(["A", "B", "C"] * 12)
-        for _ in range(6 if quick else 80):
+        for _ in range(6 if quick else 800):
             patterns.append([rng.choice("ABCD") for _ in range(rng.randint(10, 60))])
         srcs = {"A": 11, "B": 12, "C": 13, "D": 14}
         for pi, pat in enumerate(patterns):
